@@ -972,6 +972,13 @@ func (c *Ctx) ruleExcludeConsumers() {
 				if s := confined(u, depth+1); s != "" {
 					return s
 				}
+			case *ssa.Slice:
+				if u.Low != nil || u.High != nil {
+					return "sliced at " + P.Pos(u.Pos())
+				}
+				if s := confined(u, depth+1); s != "" {
+					return s
+				}
 			case *ssa.Store:
 				// into a field of a Config under construction / a local that is then handed on
 				if fa, ok := u.Addr.(*ssa.FieldAddr); ok && typeStr(deref(fa.X.Type())) == "config.Config" {
@@ -985,8 +992,17 @@ func (c *Ctx) ruleExcludeConsumers() {
 				}
 				return "compared at " + P.Pos(u.Pos())
 			case *ssa.Call:
-				if bi, ok := u.Call.Value.(*ssa.Builtin); ok && (bi.Name() == "len" || bi.Name() == "cap") {
-					continue
+				if bi, ok := u.Call.Value.(*ssa.Builtin); ok {
+					switch bi.Name() {
+					case "len", "cap":
+						continue
+					case "append", "copy":
+						// a copy of the list: what is done with the copy counts
+						if s := confined(u, depth+1); s != "" {
+							return s
+						}
+						continue
+					}
 				}
 				cal := u.Call.StaticCallee()
 				if cal == nil {
@@ -994,6 +1010,12 @@ func (c *Ctx) ruleExcludeConsumers() {
 				}
 				switch FuncName(cal) {
 				case "(*util.IgnoreSet).AddModuleIgnore", "config.New", "strings.Join":
+					continue
+				}
+				if strings.HasPrefix(FuncName(cal), "slices.Clone") {
+					if s := confined(u, depth+1); s != "" {
+						return s
+					}
 					continue
 				}
 				return "handed to " + FuncName(cal) + " at " + P.Pos(u.Pos())
